@@ -153,6 +153,17 @@ class HttpxTransport:
                 # For now, we assume it should always return a 'headers' dict.
                 # If not, we retain the headers we had before calling the auth plugin.
                 pass  # Or raise an error, or log a warning.
+            # Plugins may also authenticate through the query string or cookies
+            # (e.g. ApiKeyAuth with location="query" / "cookie"): forward what they added,
+            # keeping whatever the caller passed for this request.
+            for key in ("params", "cookies"):
+                added = authenticated_args.get(key)
+                if isinstance(added, dict) and added:
+                    current = current_request_kwargs.get(key)
+                    if isinstance(current, (list, tuple)):
+                        current_request_kwargs[key] = [*current, *added.items()]
+                    else:
+                        current_request_kwargs[key] = {**dict(current or {}), **added}
         elif self._bearer_token is not None:
             # If no auth plugin, but bearer token is present, add/overwrite Authorization header.
             prepared_headers["Authorization"] = f"Bearer {self._bearer_token}"
@@ -182,11 +193,12 @@ class HttpxTransport:
             httpx.HTTPError: For network errors or invalid responses.
             HTTPError: For non-2xx HTTP responses.
         """
-        # Prepare request arguments, excluding headers initially
-        request_args: dict[str, Any] = {k: v for k, v in kwargs.items() if k != "headers"}
-
         # This method handles default headers, request-specific headers, and authentication
+        # (an auth plugin may also add query parameters or cookies to kwargs)
         prepared_headers = await self._prepare_headers(kwargs)
+
+        # Prepare request arguments: everything the caller passed, with the prepared headers
+        request_args: dict[str, Any] = {k: v for k, v in kwargs.items() if k != "headers"}
         request_args["headers"] = prepared_headers
 
         response = await self._client.request(method, url, **request_args)
